@@ -74,8 +74,8 @@ pub open spec fn if_flags<'src>(args: Seq<(Ident<'src>, Value<'src>)>) -> Seq<bo
 //@   wrap_chain &vx_opt_args_find iter,flatten,find
 //@   ret r
 //@   requires [C08.skipdir.pre_if_present] forall|k: int| 0 <= k < directives@.len() ==> crate::skip_include_wf(branch.boolean_variables@, #[trigger] directives@[k])
-//@   ensures [C02.skipdir.excluded_only_if_directive_says] r ==> crate::excluded_upto(branch.boolean_variables@, directives@, directives@.len() as int)
-//@   ensures [C01.skipdir.kept_unless_directive_says] crate::excluded_upto(branch.boolean_variables@, directives@, directives@.len() as int) ==> r
+//@   ensures [C01+C02.skipdir.excluded_only_if_directive_says] r ==> crate::excluded_upto(branch.boolean_variables@, directives@, directives@.len() as int)
+//@   ensures [C01+C02.skipdir.kept_unless_directive_says] crate::excluded_upto(branch.boolean_variables@, directives@, directives@.len() as int) ==> r
 //@   prefix broadcast use crate::axiom_str_eq; let ghost vars = branch.boolean_variables@; proof { crate::axiom_str_obeys(); reveal_strlit("skip"); reveal_strlit("include"); }
 //@   closure 0 |p__: &&(crate::nitrogql_ast::base::Ident<'src>, crate::nitrogql_ast::value::Value<'src>)| -> (b: bool) ;; ensures [C01+C02.skipdir.cl_if0] b == ((**p__).0.name@ == "if"@)
 //@   closure 1 |p__: &&(&str, bool)| -> (b: bool) ;; ensures [C01+C02.skipdir.cl_var0] b == ((**p__).0@ == var.name@)
